@@ -264,7 +264,7 @@ func regexMayContain(pattern string, forbidden []string, alphabet []rune) (bool,
 		}
 		type state struct {
 			pc, st int
-			atEnd bool
+			atEnd  bool
 		}
 		seen := map[state]bool{}
 		var stack []state
